@@ -108,9 +108,14 @@ inline std::string jstr(const std::string &s) {
 }
 
 // ---------------------------------------------------------------- case files
+// MPI harnesses (common/harness_mpi.hpp) set these; serial harnesses keep rank 0 of 1.
+inline int &rank_ref() { static int r = 0; return r; }
+inline int &size_ref() { static int s = 1; return s; }
+
 struct CaseFile {
     std::string target, prop;
     int threads = 1;
+    int ranks = 1;
     std::vector<uint32_t> tape;
     std::string note;
 };
@@ -123,6 +128,7 @@ inline void write_case(const std::string &path, const CaseFile &c) {
         f << "target " << c.target << "\n";
         f << "prop " << c.prop << "\n";
         f << "threads " << c.threads << "\n";
+        if (c.ranks > 1) f << "ranks " << c.ranks << "\n";
         f << "tape " << c.tape.size() << "\n";
         for (size_t i = 0; i < c.tape.size(); ++i) f << c.tape[i] << ((i + 1) % 16 == 0 ? "\n" : " ");
         f << "\nend\n";
@@ -143,6 +149,7 @@ inline bool read_case(const std::string &path, CaseFile &c) {
         if (w == "target") f >> c.target;
         else if (w == "prop") f >> c.prop;
         else if (w == "threads") f >> c.threads;
+        else if (w == "ranks") f >> c.ranks;
         else if (w == "tape") {
             f >> n; c.tape.resize(n);
             for (size_t i = 0; i < n; ++i) { unsigned long long x; f >> x; c.tape[i] = static_cast<uint32_t>(x); }
@@ -287,7 +294,7 @@ struct Runner {
         if (!o.ok) {
             st.failed = true; st.fail_msg = o.msg;
             if (!fail_path.empty()) {
-                CaseFile cf; cf.target = VF_TARGET; cf.prop = p.name; cf.threads = threads; cf.tape = words;
+                CaseFile cf; cf.target = VF_TARGET; cf.prop = p.name; cf.threads = threads; cf.tape = words; cf.ranks = size_ref();
                 cf.note = "FAIL: " + o.msg + "\n" + c.desc.str();
                 write_case(fail_path, cf);
             }
@@ -386,6 +393,7 @@ struct Runner {
             else if (a == "--tier") tier = next();
             else if (a == "--shard") { std::string s = next(); sscanf(s.c_str(), "%ld/%ld", &shard, &nshards); }
         }
+        if (rank_ref() != 0) { out_path.clear(); fail_path.clear(); } // only rank 0 reports
         if (mode == "list") return list();
         if (mode == "replay") return replay(arg);
         if (!fail_path.empty()) pend.open(fail_path + ".pending");
